@@ -211,6 +211,23 @@ func runHist(h *Hist) (string, string) {
 	observe := func() *list {
 		l := e.fetch()
 		if l.bad != "" || l.num != last {
+			// the property itself: a new list holds exactly the records of the revoked table with no
+			// expiry or an expiry not more than 1 h before its thisUpdate (histories are sequential, so
+			// the table now is the table the generation saw)
+			var want []string
+			for _, en := range ss.Dump(e.ca.DB, "revoked_x509_certs") {
+				var r db.RevokedCertificateInfo
+				if json.Unmarshal(en.Value, &r) != nil {
+					continue
+				}
+				if r.ExpiresAt.IsZero() || r.ExpiresAt.Unix() >= l.this-3600 {
+					want = append(want, c.X(en.Key)+":"+strconv.FormatInt(r.RevokedAt.Unix(), 10))
+				}
+			}
+			sort.Strings(want)
+			if l.bad == "" && strings.Join(want, "|") != strings.Join(l.entries, "|") {
+				l.bad = "VIOLATION=entries-differ-from-revocation-history"
+			}
 			lists = append(lists, l.String())
 			last = l.num
 		}
